@@ -345,6 +345,18 @@ class Expander:
             return None
         params = _params(fdef)
         if isinstance(f, ast.Name):
+            # a helper defined inside this very function (a closure over its locals)
+            nested = [st for st in fdef.body if isinstance(st, ast.FunctionDef) and st.name == f.id]
+            if len(nested) == 1 and not nested[0].decorator_list:
+                nd = nested[0]
+                rebound = sum(1 for x in _walk_no_nested(fdef.body) if isinstance(x, ast.Name) and x.id == f.id
+                              and isinstance(x.ctx, (ast.Store, ast.Del)))
+                escapes = [x for x in _walk_no_nested(fdef.body) if isinstance(x, ast.Name) and x.id == f.id and isinstance(x.ctx, ast.Load)]
+                calls_ = [c for c in _walk_no_nested(fdef.body) if isinstance(c, ast.Call) and c.func in escapes]
+                recursive = any(isinstance(x, ast.Name) and x.id == f.id for x in ast.walk(nd))
+                if not rebound and len(escapes) == len(calls_) and not recursive:
+                    return nd, None, mname, cname
+                return None
             r = self._find_func(mname, f.id)
             if not r:
                 return None
@@ -378,8 +390,20 @@ class Expander:
                 if r:
                     owner, tdef = r
                     if tdef is not fdef and self._is_new(owner[0], owner[1], tdef.name) \
-                            and len(self._method_defs_everywhere(f.attr)) == 1:
+                            and len(self._method_defs_everywhere(f.attr)) == 1 \
+                            and not any(isinstance(d, ast.Name) and d.id in ('classmethod', 'staticmethod') for d in tdef.decorator_list):
                         return tdef, 'explicit', owner[0], owner[1]
+        if isinstance(f, ast.Attribute) and isinstance(f.value, ast.Name):
+            # ClassName.classmethod(...) / ClassName.staticmethod(...) of a class that is not in the inventory
+            ck = self._find_class(mname, f.value.id, set())
+            if ck:
+                r = self._lookup_method(ck, f.attr)
+                if r:
+                    owner, tdef = r
+                    kinds = {d.id for d in tdef.decorator_list if isinstance(d, ast.Name)}
+                    if tdef is not fdef and kinds & {'classmethod', 'staticmethod'} and self._is_new(owner[0], owner[1], tdef.name) \
+                            and len(self._method_defs_everywhere(f.attr)) == 1 and not self.subclasses.get(ck):
+                        return tdef, f.value, owner[0], owner[1]
         return None
 
     # ------------------------------------------------------------------ inlining
@@ -420,6 +444,9 @@ class Expander:
             binding[k.arg] = k.value
         defaults = tdef.args.defaults
         for p, d in zip(cparams[len(cparams) - len(defaults):], defaults):
+            if p not in binding and not (isinstance(d, (ast.Constant, ast.Name, ast.Attribute)) or _is_literal(d)):
+                # a default that is evaluated once per process (a dict / list / call): not the same as a fresh value per call
+                return None
             binding.setdefault(p, d)
         if set(binding) != set(cparams):
             return None
@@ -1304,18 +1331,18 @@ class Expander:
                         nm = st.targets[0].id
                         attrs = [x.attr for x in ast.walk(st.value) if isinstance(x, ast.Attribute)]
                         names = {x.id for x in ast.walk(st.value) if isinstance(x, ast.Name)}
-                        if not attrs:
+                        if not attrs and not isinstance(st.value, (ast.Constant, ast.IfExp, ast.Compare, ast.BoolOp, ast.UnaryOp)):
                             continue
                         if bound.get(nm) == 1 and nm not in params and nm not in nested_reads and nm not in names \
-                                and all(bound.get(r, 0) == 0 for r in names) and sum(1 for _ in ast.walk(st.value)) <= 40:
-                            cands.append((st, nm, attrs))
+                                and all(bound.get(r, 0) <= 1 for r in names) and sum(1 for _ in ast.walk(st.value)) <= 40:
+                            cands.append((st, nm, attrs, names))
                 if not cands:
                     continue
                 try:
                     cfg = CFG(fdef)
                 except Exception:
                     continue
-                for st, nm, attrs in cands:
+                for st, nm, attrs, vnames in cands:
                     dnodes = [n for n in cfg.nodes if n.ast is st]
                     if len(dnodes) != 1:
                         continue
@@ -1342,7 +1369,11 @@ class Expander:
                     between = fwd & back
                     killed = False
                     for n in between:
+                        if n.kind == 'for' and any(isinstance(x, ast.Name) and x.id in vnames for x in ast.walk(n.stmt.target)):
+                            killed = True
                         for x in self._own(n):
+                            if isinstance(x, ast.Name) and isinstance(x.ctx, (ast.Store, ast.Del)) and x.id in vnames:
+                                killed = True
                             if isinstance(x, ast.Attribute) and isinstance(x.ctx, (ast.Store, ast.Del)) and x.attr in attrs:
                                 killed = True
                             elif isinstance(x, ast.Call):
@@ -1399,6 +1430,255 @@ class Expander:
                     if fields and not any(isinstance(x, ast.FunctionDef) for x in st.body):
                         out[st.name] = fields
         return out
+
+    def const_tables(self):
+        """name -> list of row tuples (ast nodes), for module-/class-level names bound once to a tuple/list display of
+        tuples whose elements are constants, names or attribute chains, and never written through."""
+        binds = {}
+        bodies = [cdef.body for cdef in self.classes.values()] + [list(self._toplevel(m.tree.body)) for m in self.modules.values()]
+        for body in bodies:
+            for st in body:
+                if isinstance(st, ast.Assign):
+                    for t in st.targets:
+                        for x in ast.walk(t):
+                            if isinstance(x, ast.Name):
+                                binds.setdefault(x.id, []).append(st.value if (len(st.targets) == 1 and isinstance(t, ast.Name)) else None)
+                elif isinstance(st, (ast.AugAssign, ast.AnnAssign)) and isinstance(st.target, ast.Name):
+                    binds.setdefault(st.target.id, []).append(None)
+        touched = set()
+        for m in self.modules.values():
+            for n in ast.walk(m.tree):
+                if isinstance(n, ast.Attribute) and isinstance(n.ctx, (ast.Store, ast.Del)):
+                    touched.add(n.attr)
+                if isinstance(n, ast.Subscript) and isinstance(n.ctx, (ast.Store, ast.Del)):
+                    b = n.value
+                    touched.add(b.attr if isinstance(b, ast.Attribute) else b.id if isinstance(b, ast.Name) else '')
+                if isinstance(n, ast.Call) and isinstance(n.func, ast.Attribute) and n.func.attr in (
+                        'append', 'extend', 'insert', 'pop', 'remove', 'clear', 'sort', 'reverse'):
+                    b = n.func.value
+                    touched.add(b.attr if isinstance(b, ast.Attribute) else b.id if isinstance(b, ast.Name) else '')
+        out = {}
+
+        def simple(e):
+            return isinstance(e, (ast.Constant, ast.Name)) or (isinstance(e, ast.Attribute) and self._pure_chain(e))
+        for k, v in binds.items():
+            if len(v) != 1 or v[0] is None or k in touched or k.startswith('yaml_'):
+                continue
+            t = v[0]
+            if isinstance(t, (ast.Tuple, ast.List)) and 1 <= len(t.elts) <= 16 and all(
+                    isinstance(r, (ast.Tuple, ast.List)) and r.elts and all(simple(e) for e in r.elts) for r in t.elts) \
+                    and len({len(r.elts) for r in t.elts}) == 1:
+                out[k] = [list(r.elts) for r in t.elts]
+        return out
+
+    def unroll_table_loops(self):
+        """`for a, b in TABLE: if C(a): S(a, b); break` [else: E]  ->  if C(a1): S(a1, b1) elif C(a2): ... else: E
+        (TABLE a constant table of the package; rows substituted for the loop variables)."""
+        tables = self.const_tables()
+        if not tables:
+            return
+        exp = self
+
+        def rows_of(e):
+            if isinstance(e, ast.Name) and e.id in tables:
+                return tables[e.id]
+            if isinstance(e, ast.Attribute) and e.attr in tables and isinstance(e.value, ast.Name):
+                return tables[e.attr]
+            return None
+
+        def rewrite(stmts):
+            out = []
+            for s in stmts:
+                for sub in ('body', 'orelse', 'finalbody'):
+                    if isinstance(getattr(s, sub, None), list) and not isinstance(s, (ast.FunctionDef, ast.ClassDef)):
+                        setattr(s, sub, rewrite(getattr(s, sub)))
+                for h in getattr(s, 'handlers', []) or []:
+                    h.body = rewrite(h.body)
+                rows = rows_of(s.iter) if isinstance(s, ast.For) else None
+                if rows is None:
+                    out.append(s)
+                    continue
+                tnames = [x.id for x in s.target.elts] if isinstance(s.target, ast.Tuple) and all(
+                    isinstance(x, ast.Name) for x in s.target.elts) else None
+                if tnames is None or len(tnames) != len(rows[0]):
+                    out.append(s)
+                    continue
+                body = s.body
+                shape = len(body) == 1 and isinstance(body[0], ast.If) and not body[0].orelse and body[0].body \
+                    and isinstance(body[0].body[-1], ast.Break) \
+                    and not any(isinstance(x, (ast.Break, ast.Continue)) for st in body[0].body[:-1] for x in ast.walk(st))
+                stored = {x.id for st in body for x in ast.walk(st) if isinstance(x, ast.Name) and isinstance(x.ctx, ast.Store)}
+                if not shape or stored & set(tnames):
+                    out.append(s)
+                    continue
+                chain_else = list(s.orelse)
+                for row in reversed(rows):
+                    m = dict(zip(tnames, row))
+
+                    class Sub(ast.NodeTransformer):
+                        def visit_Name(self, node):
+                            if node.id in m and isinstance(node.ctx, ast.Load):
+                                return ast.copy_location(copy.deepcopy(m[node.id]), node)
+                            return node
+                    test = Sub().visit(copy.deepcopy(body[0].test))
+                    blk = [Sub().visit(copy.deepcopy(x)) for x in body[0].body[:-1]] or [ast.Pass()]
+                    node = ast.copy_location(ast.If(test=test, body=blk, orelse=chain_else), s)
+                    chain_else = [node]
+                for n2 in chain_else:
+                    ast.fix_missing_locations(n2)
+                out.extend(chain_else)
+                exp.stats['table_loops'] = exp.stats.get('table_loops', 0) + 1
+            return out
+        for m in self.modules.values():
+            for fdef in [n for n in ast.walk(m.tree) if isinstance(n, ast.FunctionDef)]:
+                fdef.body = rewrite(fdef.body)
+
+    def drop_dead_nested_defs(self):
+        for m in self.modules.values():
+            for fdef in [n for n in ast.walk(m.tree) if isinstance(n, ast.FunctionDef)]:
+                nested = [st for st in fdef.body if isinstance(st, ast.FunctionDef)]
+                for nd in nested:
+                    used = any(isinstance(x, ast.Name) and x.id == nd.name for st in fdef.body if st is not nd for x in ast.walk(st))
+                    if not used:
+                        fdef.body = [st for st in fdef.body if st is not nd] or [ast.copy_location(ast.Pass(), fdef)]
+
+    def _record_classes(self):
+        """class name -> field list, for classes without bases whose __init__ only stores its parameters in attributes of the
+        same names and which define nothing else but class / static methods (plain records)."""
+        out = {}
+        for (mn, cn), cdef in self.classes.items():
+            if cdef.bases or cdef.keywords or self.subclasses.get((mn, cn)):
+                continue
+            init = None
+            ok = True
+            for st in cdef.body:
+                if isinstance(st, ast.FunctionDef):
+                    if st.name == '__init__':
+                        init = st
+                    elif not any(isinstance(d, ast.Name) and d.id in ('classmethod', 'staticmethod') for d in st.decorator_list):
+                        ok = False
+                elif isinstance(st, ast.Expr) and isinstance(st.value, ast.Constant):
+                    continue
+                elif isinstance(st, ast.Assign) and len(st.targets) == 1 and isinstance(st.targets[0], ast.Name) \
+                        and st.targets[0].id == '__slots__':
+                    continue
+                else:
+                    ok = False
+            if not ok or init is None or init.args.vararg or init.args.kwarg or init.args.kwonlyargs or init.args.defaults:
+                continue
+            ps = _params(init)
+            fields = []
+            for st in _strip_doc(init.body):
+                if isinstance(st, ast.Assign) and len(st.targets) == 1 and isinstance(st.targets[0], ast.Attribute) \
+                        and isinstance(st.targets[0].value, ast.Name) and st.targets[0].value.id == ps[0] \
+                        and isinstance(st.value, ast.Name) and st.value.id == st.targets[0].attr and st.value.id in ps[1:]:
+                    fields.append(st.value.id)
+                else:
+                    ok = False
+            if ok and sorted(fields) == sorted(ps[1:]) and self._is_new_class(mn, cn):
+                out[cn] = ps[1:]
+        return out
+
+    def _is_new_class(self, mn, cn):
+        if self.baseline is None:
+            return False
+        return '%s.%s' % (mn, cn) not in set(self.baseline.get('classes', []))
+
+    def replace_records(self):
+        """a local that only ever holds fresh instances of a plain record class (or namedtuple) and is only read through its
+        fields: every construction becomes assignments to one local per field, every `r.f` reads that local."""
+        recs = dict(self._namedtuples())
+        recs.update(self._record_classes())
+        if not recs:
+            return
+        for m in self.modules.values():
+            for fdef in [n for n in ast.walk(m.tree) if isinstance(n, ast.FunctionDef)]:
+                defs = {}
+                for st in _walk_no_nested(fdef.body):
+                    if isinstance(st, ast.Assign) and len(st.targets) == 1 and isinstance(st.targets[0], ast.Name) \
+                            and isinstance(st.value, ast.Call) and isinstance(st.value.func, ast.Name) and st.value.func.id in recs:
+                        defs.setdefault(st.targets[0].id, []).append(st)
+                if not defs:
+                    continue
+                params = set(_params(fdef))
+                all_names = _all_names(fdef.body) | params
+                for r, dsts in defs.items():
+                    cls = dsts[0].value.func.id
+                    if r in params or any(d.value.func.id != cls for d in dsts):
+                        continue
+                    fields = recs[cls]
+                    stores = [x for x in _walk_no_nested(fdef.body) if isinstance(x, ast.Name) and x.id == r
+                              and isinstance(x.ctx, (ast.Store, ast.Del))]
+                    if len(stores) != len(dsts):
+                        continue
+                    parents = {}
+                    for p_ in _walk_no_nested(fdef.body):
+                        for c_ in ast.iter_child_nodes(p_):
+                            parents[id(c_)] = p_
+                    uses = [x for x in _walk_no_nested(fdef.body) if isinstance(x, ast.Name) and x.id == r and isinstance(x.ctx, ast.Load)]
+                    if not uses or any(isinstance(sc, (ast.FunctionDef, ast.Lambda)) and sc is not fdef and any(
+                            isinstance(y, ast.Name) and y.id == r for y in ast.walk(sc)) for sc in ast.walk(fdef)):
+                        continue
+                    plan = {}
+                    ok = True
+                    for u in uses:
+                        par = parents.get(id(u))
+                        if isinstance(par, ast.Attribute) and par.value is u and isinstance(par.ctx, ast.Load) and par.attr in fields:
+                            plan[id(par)] = par.attr
+                        else:
+                            ok = False
+                            break
+                    if not ok:
+                        continue
+                    bind = {}
+                    for d in dsts:
+                        call = d.value
+                        by = dict(zip(fields, call.args))
+                        for k in call.keywords:
+                            if k.arg is None or k.arg in by or k.arg not in fields:
+                                by = None
+                                break
+                            by[k.arg] = k.value
+                        if not by or set(by) != set(fields) or any(isinstance(a, ast.Starred) for a in call.args):
+                            ok = False
+                            break
+                        bind[id(d)] = by
+                    if not ok:
+                        continue
+                    tmp = {}
+                    for fl in fields:
+                        tmp[fl] = self._fresh('%s_%s' % (r, fl), all_names)
+                        all_names.add(tmp[fl])
+
+                    def rewrite(stmts):
+                        out = []
+                        for s2 in stmts:
+                            if id(s2) in bind:
+                                by = bind[id(s2)]
+                                order = [f for f in fields if f in by]
+                                # evaluation order of the call: positional arguments first, then keywords as written
+                                call = s2.value
+                                order = fields[:len(call.args)] + [k.arg for k in call.keywords]
+                                for fl in order:
+                                    out.append(ast.copy_location(ast.Assign(targets=[ast.Name(id=tmp[fl], ctx=ast.Store())], value=by[fl],
+                                                                            lineno=s2.lineno, col_offset=s2.col_offset), s2))
+                                continue
+                            for sub in ('body', 'orelse', 'finalbody'):
+                                if isinstance(getattr(s2, sub, None), list) and not isinstance(s2, (ast.FunctionDef, ast.ClassDef)):
+                                    setattr(s2, sub, rewrite(getattr(s2, sub)))
+                            for h in getattr(s2, 'handlers', []) or []:
+                                h.body = rewrite(h.body)
+                            out.append(s2)
+                        return out
+                    fdef.body = rewrite(fdef.body)
+
+                    class Rep(ast.NodeTransformer):
+                        def visit_Attribute(self, node):
+                            if id(node) in plan:
+                                return ast.copy_location(ast.Name(id=tmp[plan[id(node)]], ctx=ast.Load()), node)
+                            return self.generic_visit(node)
+                    fdef.body = [Rep().visit(b) for b in fdef.body]
+                    self.stats['records'] = self.stats.get('records', 0) + 1
 
     def replace_local_aggregates(self):
         """`r = NT(a=x, b=y)` / `r = (x, y)` bound once, used only as r.a / r[0] / `p, q = r`: the fields are read directly."""
@@ -1600,6 +1880,7 @@ class Expander:
         self.collect()
         self.substitute_constants()
         self.expand_dispatch()
+        self.unroll_table_loops()
         for rnd in range(MAX_ROUNDS):
             changed = False
             for mname, m in self.modules.items():
@@ -1612,6 +1893,8 @@ class Expander:
                                 changed |= self.expand_function(mname, st.name, s2)
             if not changed:
                 break
+        self.drop_dead_nested_defs()
+        self.replace_records()
         self.replace_local_aggregates()
         for _ in range(4):
             before = self.stats.get('aliases', 0)
